@@ -21,7 +21,20 @@ CONFIGS = [('quoted', ','), ('quoted_rfc', ','), ('simple', ','), ('quoted', '##
 
 
 def enc_cell(c):
+    if isinstance(c, list):
+        return 'L' + ('!' if not c else '+'.join(enc_cell(x) for x in c))
     return 'N' if c is None else enc_str(c)
+
+
+def cell_has_none(c):
+    return c is None or (isinstance(c, list) and any(x is None for x in c))
+
+
+def flat_cell(c, d):
+    """what normalize_fields makes of a cell (reference, from the property text: a list is joined by the sub-array delimiter)"""
+    if isinstance(c, list):
+        return (';' if d == '|' else '|').join('' if x is None else x for x in c)
+    return c
 
 
 def enc_cell_table(t):
@@ -42,8 +55,8 @@ def representable(pol, d, enc, table):
         if not r:
             return False
         for f in r:
-            if f is None:
-                return False
+            if f is None or isinstance(f, list):
+                return False      # the property quantifies over tables of strings
     first = table[0][0]
     if first.startswith('﻿') and enc in ('utf-8',):
         return False
@@ -127,8 +140,11 @@ def gen(tier, seed):
         for _r in range(nrows):
             row = []
             for _c in range(ncols if rnd.random() < 0.9 else rnd.randint(1, 4)):
-                if rnd.random() < 0.05:
+                x = rnd.random()
+                if x < 0.05:
                     row.append(None)
+                elif x < 0.09:
+                    row.append([(None if rnd.random() < 0.25 else ''.join(rnd.choice(pool) for _i in range(rnd.randint(0, 3)))) for _j in range(rnd.randint(0, 3))])
                 else:
                     row.append(''.join(rnd.choice(pool + list(d)) for _i in range(rnd.randint(0, 6))))
             if pol == 'monocolumn' and rnd.random() < 0.95:
@@ -143,7 +159,7 @@ def gen(tier, seed):
 def nontrivial(c):
     for r in c[5]:
         for f in r:
-            if f is None or any(ch in f for ch in '" \n\r\t') or (c[3] and any(ch in f for ch in c[3])):
+            if f is None or isinstance(f, list) or any(ch in f for ch in '" \n\r\t') or (c[3] and any(ch in f for ch in c[3])):
                 return True
     return False
 
@@ -161,10 +177,12 @@ def oracle(c, out):
         rtok = rpart.split(' ')
     except ValueError:
         return 'unparsable output'
-    has_none = any(f is None for r in table for f in r)
+    has_none = any(cell_has_none(f) for r in table for f in r)
     if has_none and not none_flag:
-        return 'None written without the None warning'
-    if pol in ('simple', 'whitespace') and d and any(f is not None and d in f for r in table for f in r) and not delim_flag:
+        return 'None written (as a cell or inside a list cell) without the None warning'
+    if none_flag and not has_none:
+        return 'None warning without a None in the output'
+    if pol in ('simple', 'whitespace') and d and any(f is not None and d in flat_cell(f, d) for r in table for f in r) and not delim_flag:
         return 'delimiter inside a simple/whitespace field without warning'
     eff_enc = enc if not (js and enc == 'none') else 'utf-8'
     if representable(pol, d, eff_enc, table):
